@@ -51,9 +51,14 @@ func storeKindOf(w *World) (*storeKind, error) {
 	k.Execute = w.Method(k.SearchT, "Execute")
 	// role discovery among the store's methods
 	for _, fn := range w.Funcs {
-		if fn.Signature.Recv() == nil || !types.Identical(fn.Signature.Recv().Type(), k.T) {
+		// the store's methods, and plain functions (a segment writer that needs only the configuration may be one)
+		if fn.Signature.Recv() != nil && !types.Identical(fn.Signature.Recv().Type(), k.T) {
 			continue
 		}
+		if fn.Parent() != nil || (fn.Signature.Recv() == nil && fn.Synthetic != "") {
+			continue
+		}
+		plain := fn.Signature.Recv() == nil
 		creates, writesTo, regs, dels, takesMt, takesIdx := 0, 0, 0, 0, false, false
 		for i := 0; i < fn.Signature.Params().Len(); i++ {
 			ts := tstr(fn.Signature.Params().At(i).Type(), qual)
@@ -96,6 +101,7 @@ func storeKindOf(w *World) (*storeKind, error) {
 			k.FlushOne = fn
 		case creates > 0 && writesTo > 0 && takesIdx:
 			k.WriteSeg = fn
+		case plain:
 		case dels > 0 && k.Compact == nil:
 			k.Compact = fn // provisional: refined below
 		}
